@@ -204,6 +204,7 @@ def instrument(trace, capture=()):
 
 
 INIT_GUARD_STATS = {"max_calls": 0, "max_lines": 0}
+_GUARD = {"active": False}
 
 
 @contextlib.contextmanager
@@ -212,6 +213,10 @@ def init_guard(limit=3_000_000, line_limit=10_000_000):
     coefficient iteration) without a timeout: a deterministic budget of Python-level function calls
     (a normal initialisation makes ~3e4) and of executed source lines inside the aquacrop package
     (a loop that only calls C functions makes no call events)."""
+    if _GUARD["active"]:
+        # re-entrant: an outer guard is already counting
+        yield
+        return
     state = {"n": 0, "lines": 0}
     pkg = os.path.join(os.path.dirname(os.path.abspath(__import__("aquacrop").__file__)), "")
 
@@ -235,11 +240,13 @@ def init_guard(limit=3_000_000, line_limit=10_000_000):
         return None
 
     old = sys.gettrace()
+    _GUARD["active"] = True
     sys.settrace(tracer)
     try:
         yield
     finally:
         sys.settrace(old)
+        _GUARD["active"] = False
         INIT_GUARD_STATS["max_calls"] = max(INIT_GUARD_STATS["max_calls"], state["n"])
         INIT_GUARD_STATS["max_lines"] = max(INIT_GUARD_STATS["max_lines"], state["lines"])
 
@@ -247,6 +254,25 @@ def init_guard(limit=3_000_000, line_limit=10_000_000):
 def initialize(model):
     with init_guard():
         model._initialize()
+
+
+def _guard_every_initialisation():
+    """Every initialisation -- also the one run_model(initialize_model=True) performs itself -- runs under the
+    deterministic no-progress guard, so a non-terminating initialisation is a reproducible exception in every check
+    instead of a wall-clock event."""
+    orig = ac_core.AquaCropModel._initialize
+    if getattr(orig, "_verif_guarded", False):
+        return
+
+    def _initialize(self, *a, **kw):
+        with init_guard():
+            return orig(self, *a, **kw)
+
+    _initialize._verif_guarded = True
+    ac_core.AquaCropModel._initialize = _initialize
+
+
+_guard_every_initialisation()
 
 
 def run_observed(cfg, capture=(), weather_df=None, model=None, step_hook=None, max_steps=None):
